@@ -260,7 +260,7 @@ def run(chk):
     # sequence_funcs.py -> Generated/CoverageCorePy.lean + Props/C16Gen.lean (equalities with the hand model), regenerated on change
     from .. import translate_covcore
     translate_covcore.translate(chk)
-    chk.lean_build(['PeptVerif.Props.C16', 'PeptVerif.Props.C16Gen'], DRV)
+    chk.lean_build(['PeptVerif.Props.C16', 'PeptVerif.Props.C16Ext', 'PeptVerif.Props.C16Gen'], DRV)
     chk.trusted += [
         'harness/translate_covcore.py: the reading of `A[a:b] = [x + c for x in A[a:b]]`, `A[a:b] = [c] * n`, `[c] * sequence_length(..)`, '
         '`len`, `sum`, `==`, `/` and the literal accumulate flag into List.take/drop/map/replicate/sum over Nat and a Rat quotient',
@@ -498,7 +498,7 @@ def run(chk):
 
     c17_reach.record(chk, reach)
     if tier == 'thorough':
-        chk.leanchecker(['PeptVerif.Props.C16', 'PeptVerif.Props.C16Gen', 'PeptVerif.Generated.CoverageCorePy',
+        chk.leanchecker(['PeptVerif.Props.C16', 'PeptVerif.Props.C16Ext', 'PeptVerif.Props.C16Gen', 'PeptVerif.Generated.CoverageCorePy',
                          'PeptVerif.Lemmas.Search', 'PeptVerif.Model.Search'])
     return chk.finish(classify)
 
